@@ -1145,7 +1145,7 @@ theorem ackLoop_maxPayload (fuel : Nat) : ∀ (s : Snd) (a : Nat), (ackLoop fuel
 
 /-- the state handed to the ACK loop -/
 def ackStart (s : Snd) (ack : Nat) : Snd :=
-  { s with dupAck := 0, timerEnabled := false, sndUna := ack, gUna := s.gUna + sizeS s.sndUna ack }
+  { s with dupAck := 0, timerEnabled := false, sndUna := ack, gUna := s.gUna + sizeS s.sndUna ack, gEdge := max s.gEdge (s.gUna + sizeS s.sndUna ack + s.sndWnd % M) }
 
 theorem ackLoop_SInv (s : Snd) (ack : Nat) (I : SInv s) (hB : s.gW.length + 1 < 2147483648)
     (hr : inRange (subS ack 1) s.sndUna s.sndNxt = true) (A : Snd)
@@ -1272,7 +1272,7 @@ theorem sndPrepare_SEB (e : Ep) (seg : InSeg) (wnd : Nat) (ts : Model.Header.TCP
     unfold updateRecentTimestamp; split <;> exact ⟨rfl, rfl⟩
   have ck0 := cda_keep e.snd seg.ack seg.logicalLen wnd
   -- the sender state after the duplicate-ACK bookkeeping and the window update
-  have Is : SInv ({ (checkDuplicateAck e.snd seg.ack seg.logicalLen wnd).1 with sndWnd := wnd } : Snd) :=
+  have Is : SInv ({ (checkDuplicateAck e.snd seg.ack seg.logicalLen wnd).1 with sndWnd := wnd, gEdge := max (checkDuplicateAck e.snd seg.ack seg.logicalLen wnd).1.gEdge ((checkDuplicateAck e.snd seg.ack seg.logicalLen wnd).1.gUna + wnd % M) } : Snd) :=
     sinv_keep (s := e.snd) ck0.1 ck0.2.1 h.se.inv
   have hck0 := ck0.1
   simp only [ck, Prod.mk.injEq] at hck0
